@@ -606,6 +606,36 @@ theorem postHyp_of_zeroD (s : IState) (h : ZeroD s) : PostHyp (processDelims s.d
     · exact .inl h'
     · exact .inr ⟨h'.1, by rw [hsh.1]; exact h'.2⟩
 
+theorem eminiChain_keeps (cls : QCls) (c : IMiniCfg) : ∀ r ∈ eminiChain cls c true, RuleKeeps ZeroD r := by
+  intro r hr
+  simp only [eminiChain, iminiChain, List.mem_append, List.mem_singleton, if_true] at hr
+  rcases hr with (((hr | hr) | hr) | hr) | hr
+  · subst hr; exact keeps_text
+  · split at hr
+    · simp at hr; subst hr; exact keeps_newline
+    · cases hr
+  · split at hr
+    · simp at hr; subst hr; exact keeps_escape
+    · cases hr
+  · split at hr
+    · simp at hr; subst hr; exact keeps_backticks
+    · cases hr
+  · subst hr; exact keeps_emphasis cls
+
+/-- the post-processing starts from a state satisfying its invariant -/
+theorem postInv_init (s2 : IState) (h2 : ZeroD s2) :
+    PostInv (processDelims s2.delimiters) s2.tokens.length (((processDelims s2.delimiters).length : Int) - 1) s2.tokens := by
+  have hD := postHyp_of_zeroD s2 h2
+  refine ⟨rfl, balanced_zeros _ h2.1, fun t ht _ => h2.1 t ht, ?_, ?_⟩
+  · intro j d _ hd
+    have hb := hD.tokBound j d hd
+    have hlt : d.token.toNat < s2.tokens.length := by omega
+    exact ⟨s2.tokens[d.token.toNat], List.getElem?_eq_getElem hlt, h2.1 _ (List.getElem_mem hlt)⟩
+  · intro j d de _ _ _ hde
+    have hb := hD.tokBound _ de hde
+    have hlt : de.token.toNat < s2.tokens.length := by omega
+    exact ⟨s2.tokens[de.token.toNat], List.getElem?_eq_getElem hlt, h2.1 _ (List.getElem_mem hlt)⟩
+
 /-- **C02.emini_wellformed** — for every source, every subset of the inline rules `newline`, `escape`, `backticks` with `emphasis`
 enabled, every `maxNesting` and every classification of punctuation and white space: the inline stream — tokenize loop,
 `balance_pairs`, emphasis post-processing, `fragments_join` — is levelled from 0, balanced, and `SyntaxTreeNode` builds -/
@@ -620,22 +650,7 @@ theorem emini_wellformed (cls : QCls) (c : IMiniCfg) (maxNesting : Int) (src : L
     simp only [List.foldl_cons, List.foldl_nil, Except.ok.injEq, if_true] at h
     have h0 : ZeroD (IState.init src) := by
       refine ⟨by intro t ht; simp [IState.init] at ht, by intro d hd; simp [IState.init] at hd, by simp [IState.init]⟩
-    have hk : ∀ r ∈ eminiChain cls c true, RuleKeeps ZeroD r := by
-      intro r hr
-      simp only [eminiChain, iminiChain, List.mem_append, List.mem_singleton, if_true] at hr
-      rcases hr with (((hr | hr) | hr) | hr) | hr
-      · subst hr; exact keeps_text
-      · split at hr
-        · simp at hr; subst hr; exact keeps_newline
-        · cases hr
-      · split at hr
-        · simp at hr; subst hr; exact keeps_escape
-        · cases hr
-      · split at hr
-        · simp at hr; subst hr; exact keeps_backticks
-        · cases hr
-      · subst hr; exact keeps_emphasis cls
-    have h1 : ZeroD s1 := loop_keeps ZeroD (fun s ch hq => zeroD_eq s _ rfl rfl hq) _ (eminiChain_ok cls c true) hk maxNesting _ false
+    have h1 : ZeroD s1 := loop_keeps ZeroD (fun s ch hq => zeroD_eq s _ rfl rfl hq) _ (eminiChain_ok cls c true) (eminiChain_keeps cls c) maxNesting _ false
       (IState.init src) s1 (Nat.le_refl _) h0 hl
     have h2 : ZeroD (if s1.pending.isEmpty then s1 else s1.pushPending) := by
       split
@@ -644,16 +659,7 @@ theorem emini_wellformed (cls : QCls) (c : IMiniCfg) (maxNesting : Int) (src : L
     generalize (if s1.pending.isEmpty then s1 else s1.pushPending) = s2 at h h2
     -- the post-processing
     have hD := postHyp_of_zeroD s2 h2
-    have hinv : PostInv (processDelims s2.delimiters) s2.tokens.length (((processDelims s2.delimiters).length : Int) - 1) s2.tokens := by
-      refine ⟨rfl, balanced_zeros _ h2.1, fun t ht _ => h2.1 t ht, ?_, ?_⟩
-      · intro j d _ hd
-        have hb := hD.tokBound j d hd
-        have hlt : d.token.toNat < s2.tokens.length := by omega
-        exact ⟨s2.tokens[d.token.toNat], List.getElem?_eq_getElem hlt, h2.1 _ (List.getElem_mem hlt)⟩
-      · intro j d de _ _ _ hde
-        have hb := hD.tokBound _ de hde
-        have hlt : de.token.toNat < s2.tokens.length := by omega
-        exact ⟨s2.tokens[de.token.toNat], List.getElem?_eq_getElem hlt, h2.1 _ (List.getElem_mem hlt)⟩
+    have hinv := postInv_init s2 h2
     obtain ⟨_, hbal, htext⟩ := emphPost_inv (processDelims s2.delimiters) s2.tokens.length hD (processDelims s2.delimiters).length _ s2.tokens hinv
     have hts : ts = fragmentsJoin 0 (emphPostGo (processDelims s2.delimiters) (processDelims s2.delimiters).length
         (((processDelims s2.delimiters).length : Int) - 1) s2.tokens) := by
